@@ -17,13 +17,14 @@ PROP = dict(
                "Modelled not verified: time.Time/Duration arithmetic (int64 ns, written into the model), net.Conn "
                "deadline semantics (a blocked Read fails once the deadline has passed), bufio.",
     engines=[dict(hx="keepalive")],
-    theorems=["C37_deadline", "C37_closes_by", "C37_never_early", "C37_late_packet_not_read", "C37_zero_disables"],
+    theorems=["C37_deadline", "C37_closes_by", "C37_never_early", "C37_late_packet_not_read", "C37_zero_disables",
+              "C37_outbound_irrelevant", "C37_mixed_closes_by", "C37_mixed_never_early", "C37_writes_do_not_extend"],
     model_files="coq/IO/Keepalive.v",
     rule="probe: every keepalive 0..65535 through the real Client.Read on a recording net.Conn (exhaustive; offset "
          "accepted in [1500 K, 1500 K + 50] ms); sessions: CONNECT (v4/v5) + 0..6 random packets through "
          "EstablishConnection for 25 boundary keepalives and 150 (thorough 3000) random ones, every packet must be "
          "followed by a correct re-arm; real time: K = 1 with a 1.25 s gap (must survive, then close within "
-         "[1.5, 1.75] s) and a 1.75 s gap (must be closed first); thorough K = 0..3, several gaps.  non-trivial = "
+         "[1.5, 1.75] s) and a 1.75 s gap (must be closed first); thorough K = 0..3, several gaps.  outbound traffic: 10 (thorough 70) sessions of a subscriber that is silent after SUBSCRIBE while the broker writes to it on its own initiative (retained message on subscribe, inline publish, another client publishing, another client's will) at least 80 ms after the last inbound packet — every SetDeadline must still put the deadline 1.5 K after the last INBOUND packet (offsets are measured from it; writes are explicit no-op events in the model) — and a wall-clock run K = 1 with an inline publisher every 0.4 s (thorough 5 such runs, K = 0..3): closed 1.5 K after the SUBSCRIBE regardless of the deliveries.  non-trivial = "
          "K > 0 (sessions: at least one packet after the CONNECT); distinct = distinct case lines",
     exhaustive=True,
     modelled="clients.go refreshDeadline (entire function), Client.Read loop (arm / read / handle order); "
